@@ -100,3 +100,28 @@ type OmitWrap struct {
 	Os []OmitAll `json:"os"`
 	D  D1       `json:"d"`
 }
+
+// OmitFlat: every non-nilable omitempty kind, no recursion, no pointers or slices of structs:
+// the default compile options inline it wherever it is a field (it never gets a program of
+// its own unless it is encoded at the top level).
+type OmitFlat struct {
+	I int     `json:"i,omitempty"`
+	S string  `json:"s,omitempty"`
+	F float64 `json:"f,omitempty"`
+	B bool    `json:"b,omitempty"`
+	A [2]int  `json:"a,omitempty"`
+	U uint8   `json:"u,omitempty"`
+}
+
+type OmitHolder struct {
+	O OmitFlat            `json:"o"`
+	M map[string]OmitFlat `json:"m"`
+	N int                 `json:"n"`
+}
+
+// OmitOther only exists to be pretouched: it inlines the same struct types as the probes do.
+type OmitOther struct {
+	X OmitFlat `json:"x"`
+	Y PVInner  `json:"y"`
+	Z Base     `json:"z"`
+}
